@@ -25,6 +25,7 @@ UNITS = {
     'HEADERS': dict(template='headers.rs', rlimit=30),
     'TXNCOORD': dict(template='txncoord.rs', rlimit=30),
     'RECVLOOP': dict(template='recvloop.rs', rlimit=30),
+    'MESSAGE': dict(template='message.rs', rlimit=30),
 }
 
 VARW = 'PROVED for every value (units SERSTR + READERS): strings, symbols and binaries of ANY length and content, outside and inside arrays -- the serializer writes a valid str8/str32, sym8/sym32, vbin8/vbin32 encoding whose size field counts octets ([C05.*.encoding], [C05.*.array-element]); the decoder reads both width variants by the AMQP layout and accepts every one of them from a reliable reader ([C05.*.decoding], [C05.*.every-variant-accepted]); lemma_var_round_trip joins the two: decode(encode(x) ++ rest) == x, consuming exactly the encoding; serialized_size agrees with the octets written ([C20.size.*]); compound headers are decoded to the body length and count the layout defines ([C05.compound.header-decoding])'
@@ -78,13 +79,14 @@ PROPS = {
             'DeliveryFut::poll (Pin/poll) and interleaving of dispositions with further sends are not decided',
             'that UnsettledMessage::settle_with_state is actually invoked on the entry removed by LinkRelay::on_incoming_disposition is visible in the extracted text but is not an obligation: a by-value call leaves no ghost trace; what IS proved: the entry removed is the one under the disposition\'s tag, and settle_with_state resolves its own channel with exactly the state given']),
     'C03': dict(
-        units=['SERHDR', 'SERSTR', 'READERS'], kani=K_RT, level='proof', title='Codec round trip (fixed- and variable-width primitives, compound headers)',
+        units=['SERHDR', 'SERSTR', 'READERS', 'MESSAGE'], kani=K_RT, level='proof', title='Codec round trip (fixed- and variable-width primitives, compound headers)',
         lemmas={'READERS': ['lemma_var_round_trip', 'lemma_be32_inverse']},
         assumptions=[VARW,
             'PROVED for every value: the fixed-width primitives listed in the obligations (Kani harnesses, loop-free / fully unwound over the full domain) and the compound header writers (Verus)',
             'BOUNDED ONLY (listed under bounded_obligations, never counted as proved): decoders on short byte strings, compound headers with hostile size/count bytes',
             'NOT DECIDED: arbitrary nesting of lists/maps/arrays/described values (the element loop of the serde visitor chain), the derive-macro output for the typed protocol items (performatives, SASL bodies, delivery states, messages) -- serde visitor code is outside the Verus subset and too large for CBMC beyond small bounds',
-            'compound header writers: the call-site fact count <= byte length (every element occupies at least one byte in this implementation) is assumed; the serde SerializeSeq/Map impls that call them are not under contract']),
+            'compound header writers: the call-site fact count <= byte length (every element occupies at least one byte in this implementation) is assumed; the serde SerializeSeq/Map impls that call them are not under contract',
+            'Message::serialize is proved to hand the serializer exactly the sections that are set, in the AMQP order; the Message deserialize visitor (which must accept the same sequence) is not under contract']),
     'C05': dict(
         units=['SERHDR', 'SERSTR', 'READERS'], kani=K_RT + K_DEC, level='proof', title='Valid encodings / every variant accepted (fixed- and variable-width primitives, compound headers)',
         lemmas={'READERS': ['lemma_var_round_trip', 'lemma_be32_inverse']},
